@@ -3,6 +3,7 @@ package main
 import (
 	"fmt"
 	"go/token"
+	"go/types"
 	"strings"
 
 	"golang.org/x/tools/go/ssa"
@@ -18,6 +19,7 @@ func init() {
 			"R4: king flight squares are tested with the king removed from the occupancy, against the opponent. " +
 			"R5: where the simulated move is a capture (defenders from Attackers(V,…); a pawn capturing onto PawnCaptureMoves(piece)&enemy) the captured piece is excluded from the pin test's attacker set. " +
 			"R6: a two-step pawn push composition masks the first step with the full occupancy. " +
+			"R7: every attack/push pattern computed by Attackers/Block flows into every set they return. R8: a simulated pawn push / en-passant capture adds the (previously empty) landing square to the occupancy. " +
 			"Not decided: agreement of the 250-line case analysis with move generation for concrete positions.",
 		Assume: []string{"go/ssa models the program faithfully"},
 		Run:    runC09,
@@ -48,11 +50,14 @@ func runC09(c *Ctx) {
 	c.Floor("C09.R1.PA1", pa1(c, p, "C09.R1.PA1", scope), 12, "attack-pattern ∩ piece-set sites")
 	c.Floor("C09.R1.PA2", pa2(c, p, "C09.R1.PA2", inFuncs("board.(*Board).IsStalemate")), 4, "mobility sites whose origin square comes from a piece set")
 	c.Floor("C09.R1.PA4", pa4(c, p, "C09.R1.PA4", scope), 4, "pawn-capture colour sites")
+	c.Floor("C09.R1.WRAP", pa5(c, p, "C09.R1.WRAP", scope), 2, "one-file bitboard shifts")
 	c09R2(c, p)
 	c09R3(c, p)
 	c09R4(c, p)
 	c09R5(c, p)
 	c09R6(c, p)
+	c09R7(c, p)
+	c09R8(c, p)
 }
 
 // pinTest is one `F(kingSq, occ') & pieces & opp != 0` condition.
@@ -525,6 +530,15 @@ func init() {
 		Mutant{Name: "C09.R6-double-step-over-own-pawn", Prop: "C09", File: "board/attacks.go", Quick: true,
 			Old: "\tdpawn = attacks.PawnSinglePushMoves(dpawn, color.Flip()) &^ occ\n", New: "\tdpawn = attacks.PawnSinglePushMoves(dpawn, color.Flip()) &^ occNoPawn\n",
 			Expect: "C09.R6/board.(*Board).Block#double-step"},
+		Mutant{Name: "C09.R7-block-returns-before-pawn-pushes", Prop: "C09", File: "board/attacks.go", Quick: true,
+			Old: "\t// we are making a pawn move backwards, so ignore the pawn in occupancy, as\n", New: "\tif res != 0 {\n\t\treturn res\n\t}\n\n\t// we are making a pawn move backwards, so ignore the pawn in occupancy, as\n",
+			Expect: "C09.R7/board.(*Board).Block#union"},
+		Mutant{Name: "C09.R8-en-passant-landing-square-forgotten", Prop: "C09", File: "board/attacks.go",
+			Old: "\t\t\tnocc := (occ & ^pawn & ^remove) | enPassantBB\n", New: "\t\t\tnocc := occ & ^pawn & ^remove\n",
+			Expect: "C09.R8/board.(*Board).IsStalemate#landing-square"},
+		Mutant{Name: "C09.R8-push-landing-square-forgotten", Prop: "C09", File: "board/attacks.go",
+			Old: "\t\ttargets := attacks.PawnSinglePushMoves(piece, b.STM) & ^occ\n\t\tnocc := (occ & ^piece) | targets\n", New: "\t\ttargets := attacks.PawnSinglePushMoves(piece, b.STM) & ^occ\n\t\tnocc := occ & ^piece\n",
+			Expect: "C09.R8/board.(*Board).IsStalemate#landing-square"},
 		Mutant{Name: "C09.R3-stalemate-test-also-in-check", Prop: "C09", File: "search/search.go", Quick: true,
 			Old: "\tif inCheck {\n\t\tif b.IsCheckmate() {\n\t\t\treturn -Inf + Score(ply)\n\t\t}\n\t} else {\n\t\tif b.IsStalemate() {\n\t\t\treturn 0\n\t\t}\n\t}\n", New: "\tif inCheck {\n\t\tif b.IsCheckmate() {\n\t\t\treturn -Inf + Score(ply)\n\t\t}\n\t}\n\tif b.IsStalemate() {\n\t\treturn 0\n\t}\n",
 			Expect: "C09.R3/search.(*Search).quiescence#IsStalemate"},
@@ -923,4 +937,182 @@ func c09R6(c *Ctx, p *Prog) {
 		})
 	}
 	c.Floor(rule, n, 1, "two-step pawn push compositions")
+}
+
+// c09R7: Attackers and Block answer "which pieces can reach these squares" as a union over piece
+// kinds. Every attack/push pattern the function computes must flow into every value it returns
+// (an early return before the pawn section silently drops pawn interpositions).
+func c09R7(c *Ctx, p *Prog) {
+	const rule = "C09.R7"
+	n := 0
+	isBB := func(t types.Type) bool {
+		nm, ok := types.Unalias(t).(*types.Named)
+		return ok && nm.Obj().Name() == "BitBoard"
+	}
+	for _, spec := range []string{"board.(*Board).Attackers", "board.(*Board).Block"} {
+		fn := p.Func(spec)
+		if fn == nil {
+			c.Anchor(rule, spec)
+			continue
+		}
+		if fn.Signature.Results().Len() != 1 || !isBB(fn.Signature.Results().At(0).Type()) {
+			c.Undec(rule, spec+"#union", fn.Pos(), "does not return a single bitboard")
+			continue
+		}
+		var pats []*ssa.Call
+		allInstrs(fn, func(in ssa.Instruction) {
+			if call, ok := in.(*ssa.Call); ok {
+				nm := objName(calleeObj(call))
+				if _, isAtt := attackFns[nm]; isAtt || nm == "attacks.PawnSinglePushMoves" {
+					pats = append(pats, call)
+				}
+			}
+		})
+		ord := 0
+		allInstrs(fn, func(in ssa.Instruction) {
+			ret, ok := in.(*ssa.Return)
+			if !ok || ret.Block() == fn.Recover {
+				return
+			}
+			v := returnedValue(ret, 0)
+			if _, isC := stripConv(v).(*ssa.Const); isC {
+				return
+			}
+			ord++
+			n++
+			sl := backSlice(v, sliceOpts{ThroughCalls: true})
+			missing := ""
+			for _, pc := range pats {
+				if !sl[pc] {
+					missing = fmt.Sprintf("%s (%s)", calleeObj(pc).Name(), p.Rel(pc.Pos()))
+				}
+			}
+			key := fmt.Sprintf("%s#union@%d", spec, ord)
+			if missing == "" {
+				c.Ok(rule, key, ret.Pos(), "all %d attack/push patterns computed by the function flow into the returned set", len(pats))
+			} else {
+				c.Fail(rule, key, ret.Pos(), "the set returned here does not include the pattern %s computed elsewhere in the function: pieces of that kind are silently missing from the answer on this path", missing)
+			}
+		})
+	}
+	c.Floor(rule, n, 2, "returns of Attackers/Block")
+}
+
+// c09R8: the simulated occupancy of a pawn move contains the square the pawn lands on whenever
+// that square was empty before: a push onto T = PawnSinglePushMoves(piece) (the pawn stays on its
+// file and keeps a file pin closed) and an en-passant capture (two pawns leave, the capturer lands
+// on the empty target square).
+func c09R8(c *Ctx, p *Prog) {
+	const rule = "C09.R8"
+	pcs := pieceConsts(p)
+	n := 0
+	for _, spec := range []string{"board.(*Board).IsCheckmate", "board.(*Board).IsStalemate"} {
+		fn := p.Func(spec)
+		if fn == nil {
+			c.Anchor(rule, spec)
+			continue
+		}
+		ord := 0
+		done := map[ssa.Value]bool{}
+		allInstrs(fn, func(in ssa.Instruction) {
+			call, ok := in.(*ssa.Call)
+			if !ok {
+				return
+			}
+			f, ok := attackFns[objName(calleeObj(call))]
+			if !ok || (f != "Bishop" && f != "Rook") {
+				return
+			}
+			ks := sourceKinds(call.Call.Args[0], pcs)
+			if len(ks) != 1 || ks[0] != "King" {
+				return
+			}
+			occArg := stripConv(call.Call.Args[1])
+			if done[occArg] {
+				return
+			}
+			// split a top-level or into base and additions
+			var adds []ssa.Value
+			base := occArg
+			for {
+				bo, ok := base.(*ssa.BinOp)
+				if !ok || bo.Op != token.OR {
+					break
+				}
+				// the side that carries removals is the base
+				var pp, nn []ssa.Value
+				maskLeaves(bo.X, &pp, &nn)
+				if len(nn) > 0 {
+					adds = append(adds, bo.Y)
+					base = stripConv(bo.X)
+				} else {
+					adds = append(adds, bo.X)
+					base = stripConv(bo.Y)
+				}
+			}
+			var pos, neg []ssa.Value
+			maskLeaves(base, &pos, &neg)
+			if len(neg) == 0 {
+				return
+			}
+			need, why := false, ""
+			// (a) en passant: one of the removed sets is the pawn behind the en-passant square
+			for _, x := range neg {
+				for w := range backSlice(x, sliceOpts{}) {
+					if pc, ok := w.(*ssa.Call); ok && objName(calleeObj(pc)) == "attacks.PawnSinglePushMoves" && len(neg) >= 2 {
+						for u := range backSlice(pc.Call.Args[0], sliceOpts{ThroughLoads: true}) {
+							if isFieldLoad(u, "Board.EnPassant") {
+								need, why = true, "an en-passant capture removes two pawns and lands on the empty target square"
+							}
+						}
+					}
+				}
+			}
+			// (b) push: a push-target set of the moving pawn was computed before this test
+			var pushT *ssa.Call
+			for _, x := range neg {
+				for _, pc := range callsIn(fn, "attacks.PawnSinglePushMoves") {
+					pcall := pc.(*ssa.Call)
+					if sameValue(pcall.Call.Args[0], x, 0) && instrDominates(pcall, call) {
+						// the latest such definition that is not followed by a capture-target definition of the same piece
+						later := false
+						for _, cc := range callsIn(fn, "attacks.PawnCaptureMoves") {
+							ccall := cc.(*ssa.Call)
+							if sameValue(ccall.Call.Args[0], x, 0) && instrDominates(pcall, ccall) && instrDominates(ccall, call) {
+								later = true
+							}
+						}
+						if !later {
+							pushT = pcall
+						}
+					}
+				}
+			}
+			if pushT != nil {
+				need, why = true, "a pawn push lands on an empty square of the pawn's own file"
+			}
+			if !need {
+				return
+			}
+			done[occArg] = true
+			ord++
+			n++
+			key := fmt.Sprintf("%s#landing-square@%d", spec, ord)
+			okAdd := len(adds) > 0
+			if okAdd && pushT != nil {
+				okAdd = false
+				for _, a := range adds {
+					if backSlice(a, sliceOpts{})[pushT] {
+						okAdd = true
+					}
+				}
+			}
+			if okAdd {
+				c.Ok(rule, key, call.Pos(), "%s: the simulated occupancy adds the landing square", why)
+			} else {
+				c.Fail(rule, key, call.Pos(), "%s, but the simulated occupancy only removes pieces: a line that the pawn keeps closed after the move is seen as open and the legal move is judged illegal", why)
+			}
+		})
+	}
+	c.Floor(rule, n, 2, "pawn-move simulations with an empty landing square")
 }
